@@ -1,6 +1,9 @@
 """Discharging verification conditions: z3 decides, cvc5 cross-checks the same SMT-LIB text."""
 import os, re, subprocess, tempfile, time
+import concurrent.futures as cf
 import z3
+
+_POOL = cf.ThreadPoolExecutor(max_workers=int(os.environ.get("VERIF_CVC5_JOBS", "10")))
 
 CVC5 = "cvc5"
 
@@ -53,10 +56,8 @@ def solve(assertions, timeout_ms=60000, cross=True):
     st = {"z3_s": round(dt, 3), "z3": str(r), "smt_assertions": len(assertions)}
     model = s.model() if r == z3.sat else None
     if cross:
-        t1 = time.time()
-        cv = cvc5_check(s.to_smt2(), timeout_s=int(os.environ.get('VERIF_CVC5_S', '4')))
-        st["cvc5"] = cv
-        st["cvc5_s"] = round(time.time() - t1, 3)
+        # the cross-check runs concurrently; Obligation.finish() collects it
+        st["cvc5_future"] = _POOL.submit(cvc5_check, s.to_smt2(), int(os.environ.get('VERIF_CVC5_S', '4')))
     return str(r), model, st
 
 
@@ -71,26 +72,23 @@ class Obligation:
         self.cross_ok = 0
         self.cross_unknown = 0
         self.problems = []     # (kind, text, model)
+        self.pending = []      # (cvc5 future, z3 verdict, what)
         self.t0 = time.time()
 
     def vc(self, what, pc, goal, timeout_ms=60000, info=None):
         """goal must hold under pc: pc ∧ ¬goal must be unsat"""
         verdict, model, st = solve(list(pc) + [z3.Not(goal)], timeout_ms)
         self._acc(st)
+        fut = st.get("cvc5_future")
         if verdict == "unsat":
-            if st.get("cvc5") == "sat":
-                self.problems.append(("inconclusive", "solvers disagree on %s (z3 unsat, cvc5 sat)" % what, None))
+            self.pending.append((fut, "unsat", what))
             return True
         if verdict == "sat":
-            if st.get("cvc5") == "unsat":
-                self.problems.append(("inconclusive", "solvers disagree on %s (z3 sat, cvc5 unsat)" % what, None))
-            else:
-                self.problems.append(("cex", what, model, info))
+            self.pending.append((fut, "sat", what))
+            self.problems.append(("cex", what, model, info))
             return False
-        # z3 unknown: let cvc5 decide an unsat, otherwise inconclusive
-        if st.get("cvc5") == "unsat":
-            return True
-        self.problems.append(("inconclusive", "solver returned unknown on " + what, None))
+        # z3 unknown: cvc5 may still decide an unsat
+        self.pending.append((fut, "unknown", what))
         return False
 
     def reachable(self, what, pc, timeout_ms=30000):
@@ -108,13 +106,32 @@ class Obligation:
         self.queries += 1
         self.solver_s += st.get("z3_s", 0) + st.get("cvc5_s", 0)
         self.assertions += st.get("smt_assertions", 0)
-        if st.get("cvc5") in ("sat", "unsat"):
-            self.cross_ok += 1
-        elif "cvc5" in st:
-            self.cross_unknown += 1
+        pass
+
+    def _collect(self):
+        for fut, zv, what in self.pending:
+            t0 = time.time()
+            try:
+                cv = fut.result() if fut is not None else "unknown"
+            except Exception:
+                cv = "unknown"
+            if cv in ("sat", "unsat"):
+                if zv in ("sat", "unsat") and cv != zv:
+                    self.problems = [p for p in self.problems if not (p[0] == "cex" and p[1] == what)]
+                    self.problems.append(("inconclusive", "solvers disagree on %s (z3 %s, cvc5 %s)" % (what, zv, cv), None))
+                else:
+                    self.cross_ok += 1
+                if zv == "unknown" and cv == "sat":
+                    self.problems.append(("inconclusive", "z3 unknown, cvc5 sat on " + what, None))
+            else:
+                self.cross_unknown += 1
+                if zv == "unknown":
+                    self.problems.append(("inconclusive", "both solvers returned unknown on " + what, None))
+        self.pending = []
 
     def finish(self, engine=None, cex_to_native=None):
         """cex_to_native(model) -> (harness, [byte lists]) for native confirmation of a counterexample"""
+        self._collect()
         stats = {"queries": self.queries, "solver_s": round(self.solver_s, 2), "smt_assertions": self.assertions,
                  "cvc5_agreed": self.cross_ok, "cvc5_unknown": self.cross_unknown, "wall_s": round(time.time() - self.t0, 1)}
         if engine is not None:
